@@ -290,6 +290,11 @@ type Machine struct {
 	forkHash   uint32
 	forkCount  int
 	forcedLen  int
+
+	// shared-memory write monitor (C07): cells frozen by nd.Freeze*, and plain writes that hit them
+	frozen       map[*Value]string
+	frozenMaps   map[*Map]string
+	frozenWrites []string
 }
 
 func NewMachine(p *Program, solverKind string, timeoutMs int) (*Machine, error) {
@@ -342,6 +347,7 @@ func (m *Machine) resetPath() {
 	m.inited = map[string]bool{}
 	m.sentinel = map[string]Value{}
 	m.pathNotes = nil
+	m.frozen, m.frozenMaps, m.frozenWrites = nil, nil, nil
 	m.model = map[string]uint64{}
 	m.forkHash = 2166136261
 	m.forkCount = 0
